@@ -6,8 +6,9 @@ VERIF = os.path.dirname(os.path.dirname(os.path.abspath(__file__)))
 seed, sid, ev = sys.argv[1], sys.argv[2], sys.argv[3]
 d = os.path.join(VERIF, "seeded", sid)
 os.makedirs(d, exist_ok=True)
-for f in ("patch.diff", "demo.cc"):
-    shutil.copy(os.path.join(seed, f), os.path.join(d, f))
+for f in os.listdir(seed):
+    if f.endswith((".diff", ".cc", ".sh", ".h")):
+        shutil.copy(os.path.join(seed, f), os.path.join(d, f))
 meta = {}
 try:
     meta = json.load(open(os.path.join(seed, "meta.json")))
